@@ -12,12 +12,12 @@ PROP = 'C16'
 THEOREMS = ['C16_block_partition_irrelevant', 'C16_generic_layouts_legal', 'C16_examples']
 TYPES = ['scalars', 'inner', 'suit', 'nested', 'renamed', 'node', 'wrap-inner', 'wrap-suit', 'shape', 'with-shapes', 'reuse',
          'units', 'vec-unit', 'vec-nothing', 'one-tuple-single', 'one-array-single', 'one-tuple-link', 'one-tuple-inner', 'pair',
-         'array3', 'one-tuple-int']
+         'array3', 'one-tuple-int', 'rename-rules', 'kebab-units', 'with-rules', 'reversed', 'reversed-defaults', 'interleaved', 'rotated']
 PLAIN = ['scalars', 'inner', 'suit', 'nested', 'renamed', 'node', 'wrap-inner', 'wrap-suit', 'reuse', 'units', 'vec-unit',
-         'vec-nothing']   # no data-carrying enums, no tuples (to_value maps a tuple to an array, the schema-aware path to a record)
+         'vec-nothing', 'kebab-units', 'reversed', 'reversed-defaults', 'interleaved', 'rotated']   # no data-carrying enums, no tuples (to_value maps a tuple to an array, the schema-aware path to a record)
 BLOCKS = ['', '1', '16', '100000']
 CFG = '(cfg 536870912 56 80)'
-RULE = ('corpus of 21 Rust types (derived structs and enums, tuples, fixed arrays, vectors of zero-width items) (integers of all widths, floats, char, String, Option, Vec, nested Vec, string-keyed '
+RULE = ('corpus of 28 Rust types (derived structs and enums, tuples, fixed arrays, vectors of zero-width items, structs whose field order differs from that of a hand-written schema - reversed, interleaved, rotated, with defaults; enums under serde rename_all / rename_all_fields / rename) (integers of all widths, floats, char, String, Option, Vec, nested Vec, string-keyed '
         'HashMap, nested structs, unit enums, data enums, renamed / defaulted / skipped fields, recursion through Box and Vec, '
         'generics) x generated values x target block sizes {none, 1, 16, large}. non-trivial = distinct (type, value) pairs')
 
